@@ -14,6 +14,11 @@
    - counters are unbounded integers (no wrap at 2^64).
    - `delete` of a Future = its destructor (join) followed by EvDestroy; the object is not used
      again (the check's driver gives the object created afterwards a fresh future index).
+     ~Future<A>() { join(); } is followed by the destruction of the members in reverse order: first
+     `result` (the slot WStore writes), then the inner Future<void>, whose own destructor calls join()
+     again and finds _joinable false.  EvDestroy stands for the end of all of that: everything after the
+     one join that waits.  (A ~Future<A> WITHOUT its join() would destroy `result` before the inner
+     join waits - not this model; the harness drives a Future<String> for it.)
    Fields marked GHOST are history variables: no decision of the model reads them. *)
 From Coq Require Import ZArith List Bool Lia.
 From Common Require Import ListAux.
